@@ -16,6 +16,7 @@ package sched
 import (
 	"fmt"
 	"runtime"
+	"runtime/debug"
 	"strings"
 	"sync"
 )
@@ -89,6 +90,17 @@ type state struct {
 
 var s *state
 
+var runCount int
+var gcOff bool
+
+// GCEvery: a collection is forced between executions every GCEvery runs (never inside one).
+var GCEvery = 64
+
+// Sites makes the happens-before monitor record source positions of accesses (slow: stack
+// unwinding). Explorations run with Sites off; a racy execution is replayed with Sites on to
+// obtain the message.
+var Sites bool
+
 // Active reports whether the caller runs inside a scheduled execution (and is not dead).
 func Active() bool { return s != nil && s.cur != nil && !s.over }
 
@@ -153,6 +165,16 @@ func (st *state) fail(kind, msg string) {
 func Run(prefix []int, maxSteps int, body func()) *Exec {
 	if s != nil {
 		panic("sched: nested Run")
+	}
+	// No garbage collection inside an execution: the happens-before monitor and the atomic
+	// clocks are keyed by address, and a collected object's address may be handed out again.
+	runCount++
+	if runCount%GCEvery == 0 {
+		runtime.GC()
+	}
+	if !gcOff {
+		gcOff = true
+		debug.SetGCPercent(-1)
 	}
 	st := &state{prefix: prefix, x: &Exec{}, maxSteps: maxSteps, finished: make(chan struct{}), shadow: map[uintptr]*shadowCell{}}
 	s = st
@@ -555,6 +577,9 @@ type shadowCell struct {
 }
 
 func site(skip int) string {
+	if !Sites {
+		return "(replay with sites)"
+	}
 	_, file, line, ok := runtime.Caller(skip)
 	if !ok {
 		return "?"
